@@ -64,7 +64,7 @@ func genRestoreSrc() {
 		for _, s := range fd.Body.List {
 			t := strings.Join(strings.Fields(src(s)), " ")
 			if strings.HasPrefix(t, "if pkg, ok := n.(*ast.Package)") {
-				okp = t == "if pkg, ok := n.(*ast.Package); ok { for _, file := range pkg.Files { fd.fragments = nil fd.fragment(file) fd.link() } } else { fd.fragment(n) fd.link() }"
+				okp = t == "if pkg, ok := n.(*ast.Package); ok { fd.pkg = pkg for _, file := range pkg.Files { fd.fragments = nil fd.fragment(file) fd.link() } } else { fd.fragment(n) fd.link() }"
 				if !okp {
 					noteUnknown("decorator/decorator.go package-per-file", "fragment/link of a package differs from 'each file on its own': "+t)
 				}
